@@ -424,4 +424,145 @@ theorem step_refines {s : State} (hs : Inv s) (op : Op) :
   · obtain ⟨h1, h2, h3⟩ := step_ref hs op hop
     exact ⟨h1, h2, fun _ => h3⟩
 
+/-! ### the specification changes its targets only -/
+
+theorem spec_setT_ne (a : AState) (h j : Nat) (v : Option AVal) (hne : j ≠ h) :
+    getSlot (Spec.setT a h v).pool j = getSlot a.pool j := getSlot_setSlot_ne _ _ hne
+
+theorem spec_copyOp_iso (a : AState) (h g j : Nat) (hne : j ≠ g) :
+    getSlot (Spec.copyOp a h g).1.pool j = getSlot a.pool j := by
+  unfold Spec.copyOp; split <;> simp [spec_setT_ne, hne]
+
+theorem spec_viewOp_iso (a : AState) (h g j : Nat) (rule : Shape → R Shape) (hne : j ≠ g) :
+    getSlot (Spec.viewOp a h g rule).1.pool j = getSlot a.pool j := by
+  unfold Spec.viewOp; split <;> (try rfl)
+  split <;> simp [spec_setT_ne, hne]
+
+theorem spec_inplace1_iso (a : AState) (h j : Nat) (f : Nat → List Int → List Int) (hne : j ≠ h) :
+    getSlot (Spec.inplace1 a h f).1.pool j = getSlot a.pool j := by
+  unfold Spec.inplace1; split <;> simp [spec_setT_ne, hne]
+
+theorem spec_inplace2_iso (f : Int → Int → Int) (a : AState) (h g j : Nat) (hne : j ≠ h) :
+    getSlot (Spec.inplace2 f a h g).1.pool j = getSlot a.pool j := by
+  unfold Spec.inplace2
+  split
+  · split
+    · split <;> simp [spec_setT_ne, hne]
+    · rfl
+  · rfl
+
+theorem spec_withShape_iso (a : AState) (dims : List Nat) (batch : Nat) (k : Shape → AState × Out) (j : Nat)
+    (hk : ∀ sh, getSlot (k sh).1.pool j = getSlot a.pool j) :
+    getSlot (Spec.withShape a dims batch k).1.pool j = getSlot a.pool j := by
+  unfold Spec.withShape; split <;> simp [hk]
+
+theorem spec_isolation (a : AState) (op : Op) (j : Nat) (hj : j ∉ Spec.targets op) :
+    getSlot (Spec.step a op).1.pool j = getSlot a.pool j := by
+  cases op with
+  | new h dims batch vals =>
+    simp [Spec.targets] at hj
+    apply spec_withShape_iso; intro sh; (try dsimp only); split <;> simp [spec_setT_ne, hj]
+  | copy h g => simp [Spec.targets] at hj; exact spec_copyOp_iso _ _ _ _ hj
+  | copyctor h g => simp [Spec.targets] at hj; exact spec_copyOp_iso _ _ _ _ hj
+  | move h g =>
+    simp [Spec.targets] at hj
+    simp only [Spec.step]
+    split
+    · rfl
+    · split
+      · rfl
+      · simp [spec_setT_ne, hj.1, hj.2]
+  | reshape h g dims batch =>
+    simp [Spec.targets] at hj
+    simp only [Spec.step]
+    split
+    · rfl
+    · apply spec_withShape_iso; intro sh; exact spec_viewOp_iso _ _ _ _ _ hj
+  | flatten h g => simp [Spec.targets] at hj; exact spec_viewOp_iso _ _ _ _ _ hj
+  | reset h k => simp [Spec.targets] at hj; exact spec_inplace1_iso _ _ _ _ hj
+  | resetv h vals =>
+    simp [Spec.targets] at hj
+    simp only [Spec.step]
+    split
+    · rfl
+    · rfl
+    · split
+      · rfl
+      · exact spec_inplace1_iso _ _ _ _ hj
+  | iadd h g => simp [Spec.targets] at hj; exact spec_inplace2_iso _ _ _ _ _ hj
+  | isub h g => simp [Spec.targets] at hj; exact spec_inplace2_iso _ _ _ _ _ hj
+  | imul h k => simp [Spec.targets] at hj; exact spec_inplace1_iso _ _ _ _ hj
+  | invalidate h =>
+    simp [Spec.targets] at hj
+    simp only [Spec.step]; split <;> simp [spec_setT_ne, hj]
+  | drop h =>
+    simp [Spec.targets] at hj
+    simp only [Spec.step]; split <;> simp [spec_setT_ne, hj]
+  | read h => simp only [Spec.step]; split <;> rfl
+  | shape h => simp only [Spec.step]; split <;> rfl
+  | valid h => simp only [Spec.step]; split <;> rfl
+  | device h => simp only [Spec.step]; split <;> rfl
+  | param p dims batch vals =>
+    simp [Spec.targets] at hj
+    apply spec_withShape_iso; intro sh; try dsimp only
+    split
+    · rfl
+    · split
+      · rfl
+      · simp [spec_setT_ne, hj.1, hj.2]
+  | pvalue p g => simp [Spec.targets] at hj; simp only [Spec.step]; split; exact spec_copyOp_iso _ _ _ _ hj; rfl
+  | pgrad p g => simp [Spec.targets] at hj; simp only [Spec.step]; split; exact spec_copyOp_iso _ _ _ _ hj; rfl
+  | ptensor p g => simp [Spec.targets] at hj; simp only [Spec.step]; split; exact spec_copyOp_iso _ _ _ _ hj; rfl
+  | piaddValue p g =>
+    simp [Spec.targets] at hj
+    simp only [Spec.step]
+    split
+    · rfl
+    · split
+      · exact spec_inplace2_iso _ _ _ _ _ hj
+      · rfl
+  | pdrop p =>
+    simp [Spec.targets] at hj
+    simp only [Spec.step]
+    simp [spec_setT_ne, hj.1, hj.2]
+  | live => rfl
+  | readall => rfl
+
+/-! ### the specification never answers `crash`; small facts about runs -/
+
+theorem reshape_ne_crash (a b : Shape) : ShapeOps.reshape a b ≠ .error .crash := by
+  unfold ShapeOps.reshape Shape.resizeBatch Shape.updateBatch
+  split
+  · simp [throwError]
+  · split
+    · simp [throwError]
+    · split <;> simp [throwError, pure, Except.pure]
+
+theorem flatten_ne_crash (a : Shape) : ShapeOps.flatten a ≠ .error .crash := shape_new_ne_crash _ _
+
+/-- the specification never answers `crash` -/
+theorem spec_never_crashes (a : AState) (op : Op) : (Spec.step a op).2 ≠ .crash := by
+  have hnew := shape_new_ne_crash
+  have hre := reshape_ne_crash
+  have hfl := flatten_ne_crash
+  cases op <;>
+    simp only [Spec.step, Spec.copyOp, Spec.viewOp, Spec.inplace1, Spec.inplace2, Spec.withShape] <;>
+    (repeat' split) <;> simp_all
+
+theorem run_snoc (s : State) (ops : List Op) (op : Op) :
+    (run s (ops ++ [op])).1 = (step (run s ops).1 op).1 := by
+  induction ops generalizing s with
+  | nil => rfl
+  | cons o ops ih => simp only [List.cons_append, run]; exact ih _
+
+theorem filter_isSome_of_all_none (hp : List (Option Buf)) (h : ∀ b, getSlot hp b = none) :
+    (hp.filter Option.isSome).length = 0 := by
+  induction hp with
+  | nil => rfl
+  | cons o rest ih =>
+    have h0 := h 0
+    simp only [getSlot] at h0
+    subst h0
+    simpa using ih (fun b => by simpa [getSlot] using h (b + 1))
+
 end Primitiv.Cow
